@@ -12,10 +12,12 @@ theorem atLeast_of_known {cs : List ST} (hne : cs ≠ []) (hk : ∀ c ∈ cs, c.
 theorem node_pos {N : List Name} {W : Prop} {j : Join} {c c1 : Int} {k : Nat} {cs : List ST} {es : Ents}
     (hne : cs ≠ []) (hst : ∀ x ∈ cs, Stored x.viable) (hcov : CovL N cs)
     (hals : (∀ x ∈ cs, x.viable ≠ .unknown) → ∃ x ∈ cs, x.atLeastSome = true)
-    (hhas : allMarked es = true → W ∨ HasAllAny cs) :
+    (hhas : allMarked es = true → W ∨ HasAllAny cs)
+    (hac : (setViableVal cs es ≠ .unknown → MT.rank .some_ ≤ (setViableVal cs es).rank ∧ ∀ x ∈ cs, x.viable ≠ .unknown) →
+      AC N (.mult j (setViableVal cs es) c c1 k cs)) :
     P1 N W es (.mult j (setViableVal cs es) c c1 k cs) := by
   obtain ⟨s1, s2, s3⟩ := setViableVal_props cs es hne hst
-  refine ⟨fun n hn hd => ?_, fun hk => ?_, fun ham => ?_⟩
+  refine ⟨fun n hn hd => ?_, fun hk => ?_, hac (fun hk => ?_), fun ham => ?_⟩
   · simp only [holds]
     simp only [dl] at hd
     split at hd
@@ -30,6 +32,8 @@ theorem node_pos {N : List Name} {W : Prop} {j : Join} {c c1 : Int} {k : Nat} {c
     have hnu : ∀ x ∈ cs, x.viable ≠ .unknown := fun x hx e => hk (s2.mpr ⟨x, hx, e⟩)
     simp only [ST.atLeastSome, ST.viable, decide_eq_true_eq]
     exact decide_eq_true (setViableVal_ge_some hnu (hals hnu))
+  · have hnu : ∀ x ∈ cs, x.viable ≠ .unknown := fun x hx e => hk (s2.mpr ⟨x, hx, e⟩)
+    exact ⟨setViableVal_ge_some hnu (hals hnu), hnu⟩
   · rcases hhas ham with w | h
     · exact Or.inl w
     · right
@@ -69,20 +73,67 @@ theorem HasAll_of_all {t : ST} (h : t.viable = .all) : HasAll t := by
 theorem cov_of_dead {N : List Name} {t : ST} (hd : ∀ x ∈ lvS t, x ∉ N) : Cov N t :=
   fun n hn hdl => absurd hn (hd n (dl_sub t n hdl))
 
+theorem mem_freshL {y : ST} : ∀ {rest : List Tree}, y ∈ freshL rest → ∃ T ∈ rest, y = fresh T
+  | [], h => by simp [freshL] at h
+  | a :: l, h => by
+    simp only [freshL, List.mem_cons] at h
+    rcases h with e | e
+    · exact ⟨a, by simp, e⟩
+    · obtain ⟨T, hT, hy⟩ := mem_freshL e
+      exact ⟨T, List.mem_cons_of_mem _ hT, hy⟩
+
+theorem leaves_sub_leavesL {T : Tree} : ∀ {rest : List Tree}, T ∈ rest → ∀ n ∈ leaves T, n ∈ leavesL rest
+  | [], h, _, _ => by cases h
+  | a :: l, h, n, hn => by
+    simp only [leavesL, List.mem_append]
+    rcases List.mem_cons.mp h with e | e
+    · subst e; exact Or.inl hn
+    · exact Or.inr (leaves_sub_leavesL e n hn)
+
+theorem ac_and {N : List Name} {v : MT} {c c1 : Int} {k : Nat} {cs : List ST} (hac : ∀ x ∈ cs, AC N x)
+    (hk : v ≠ .unknown → MT.rank .some_ ≤ v.rank ∧ ∀ x ∈ cs, x.viable ≠ .unknown) : AC N (.mult .and v c c1 k cs) := by
+  refine ⟨fun h => ?_, fun h => ?_⟩
+  · simp only [ST.viable] at h
+    obtain ⟨a, b⟩ := hk h
+    simp only [PA]; exact ⟨a, PAall_of cs hac b⟩
+  · simp only [ST.viable] at h
+    simp only [PP]; exact ⟨h, PPall_of cs hac⟩
+
+theorem ac_andor {N : List Name} {v : MT} {c c1 : Int} {k : Nat} {cs : List ST} (hcl : ∀ x ∈ cs, AC N x ∨ DC N x)
+    (hany : ∃ x ∈ cs, AC N x)
+    (hk : v ≠ .unknown → MT.rank .some_ ≤ v.rank ∧ ∀ x ∈ cs, x.viable ≠ .unknown) : AC N (.mult .andor v c c1 k cs) := by
+  refine ⟨fun h => ?_, fun h => ?_⟩
+  · simp only [ST.viable] at h
+    obtain ⟨a, b⟩ := hk h
+    obtain ⟨x, hx, hax⟩ := hany
+    simp only [PA]
+    exact ⟨a, PAsome_of cs hcl (fun y hy _ => b y hy), PAany_of cs ⟨x, hx, hax.1 (b x hx)⟩⟩
+  · simp only [ST.viable] at h
+    simp only [PP]; exact ⟨h, PPsome_of cs hcl, PPany_of cs hany⟩
+
+theorem not_als_of_notK {v : MT} (hs : Stored v) (hk : ¬ K v) : ¬ MT.rank .some_ ≤ v.rank := by
+  rcases stored_cases hs with h | h | h
+  · rw [h]; simp [MT.rank]
+  · rw [h]; simp [MT.rank]
+  · exact absurd h hk
+
 theorem nonors_pos (N : List Name) (hN : N.Pairwise (· < ·)) : ∀ f : Nat,
     (∀ T es r o W, matchNonORs f (fresh T) es = .ok r → HT N T o es → AliveT N T → (allMarked es = true → W) →
       P1 N W r.2.1 r.1) ∧
     (∀ restT done es r o W, andNonORs f done (freshL restT) es = .ok r → HTL N restT o es → AliveAll N restT →
       (allMarked es = true → W) →
       ∃ tail, r.1 = done ++ tail ∧ CovL N tail ∧ (∀ c ∈ tail, c.viable ≠ .unknown → c.atLeastSome = true) ∧
-        (allMarked r.2.1 = true → W ∨ HasAllAny tail) ∧ r.2.2 = false) ∧
+        (allMarked r.2.1 = true → W ∨ HasAllAny tail) ∧ r.2.2 = false ∧ (∀ x ∈ tail, AC N x)) ∧
     (∀ restT done es r o W, andorNonORs f done (freshL restT) es = .ok r → HTL N restT o es → AliveSome N restT →
       (allMarked es = true → W) →
       ∃ tail, r.1 = done ++ tail ∧ (r.2.2 = false → CovL N tail) ∧
         (r.2.2 = true → ∀ n ∈ N, n ∈ lvSL tail → n ∈ holdsL tail) ∧
         (AliveAny N restT → (∀ c ∈ tail, c.viable ≠ .unknown) → ∃ c ∈ tail, c.atLeastSome = true) ∧
         (allMarked r.2.1 = true → W ∨ HasAllAny tail) ∧
-        (r.2.2 = true → ∀ d ∈ done, d.viable ≠ .unknown)) := by
+        (r.2.2 = true → ∀ d ∈ done, d.viable ≠ .unknown) ∧
+        (∀ x ∈ tail, AC N x ∨ DC N x) ∧ (AliveAny N restT → ∃ x ∈ tail, AC N x) ∧
+        (r.2.2 = true → (∀ x ∈ tail, (AC N x ∧ x.viable ≠ .unknown) ∨ DC N x) ∧
+          ∃ x ∈ tail, AC N x ∧ x.viable ≠ .unknown)) := by
   intro f
   induction f with
   | zero =>
@@ -102,7 +153,9 @@ theorem nonors_pos (N : List Name) (hN : N.Pairwise (· < ·)) : ∀ f : Nat,
       | or ts =>
         simp only [fresh, matchNonORs] at h
         cases h
-        refine ⟨fun n _ hd => ?_, fun hk => absurd rfl hk, fun ham => Or.inl (hW ham)⟩
+        simp only [AliveT] at hal
+        refine ⟨fun n _ hd => ?_, fun hk => absurd rfl hk, ⟨fun hk => absurd rfl hk, fun _ => ⟨ts, rfl, hal⟩⟩,
+          fun ham => Or.inl (hW ham)⟩
         have : dl (ST.mult .or .unknown orInitChoice orInitChoice1 orInitCount (freshL ts)) = [] := by simp [dl]
         rw [this] at hd; cases hd
       | and ts =>
@@ -112,7 +165,7 @@ theorem nonors_pos (N : List Name) (hN : N.Pairwise (· < ·)) : ∀ f : Nat,
         simp only [fresh, matchNonORs, freshL_isEmpty hwf.1, Bool.false_eq_true, if_false] at h
         obtain ⟨⟨cs', es', failed⟩, h1, h2⟩ := bind_ok' h
         have HL : HTL N ts o es := ⟨hwf.2, by simpa [leaves] using H.nd, fun n hn => H.out n (by simpa [leaves] using hn), H.f0, H.nm⟩
-        obtain ⟨tail, htail, hcov, hals, hhas, hflag⟩ := ih2 ts [] es _ o W h1 HL hal hW
+        obtain ⟨tail, htail, hcov, hals, hhas, hflag, hacs⟩ := ih2 ts [] es _ o W h1 HL hal hW
         simp only [List.nil_append] at htail
         subst htail
         simp only at hflag
@@ -124,7 +177,7 @@ theorem nonors_pos (N : List Name) (hN : N.Pairwise (· < ·)) : ∀ f : Nat,
         have hne : cs' ≠ [] := by intro e; subst e; exact hsem.1 rfl
         have hst : ∀ x ∈ cs', Stored x.viable := fun x hx => by
           have := SemV_stored (SemV_child hsem.2.1 hx); rwa [viable_skel'] at this
-        exact node_pos hne hst hcov (fun hk => atLeast_of_known hne hk hals) hhas
+        exact node_pos hne hst hcov (fun hk => atLeast_of_known hne hk hals) hhas (ac_and hacs)
       | andor ts =>
         have hwf := H.wf
         simp only [treeWF, Bool.and_eq_true, Bool.not_eq_true', List.isEmpty_eq_false_iff] at hwf
@@ -132,14 +185,30 @@ theorem nonors_pos (N : List Name) (hN : N.Pairwise (· < ·)) : ∀ f : Nat,
         simp only [fresh, matchNonORs, freshL_isEmpty hwf.1, Bool.false_eq_true, if_false] at h
         obtain ⟨⟨cs', es', early⟩, h1, h2⟩ := bind_ok' h
         have HL : HTL N ts o es := ⟨hwf.2, by simpa [leaves] using H.nd, fun n hn => H.out n (by simpa [leaves] using hn), H.f0, H.nm⟩
-        obtain ⟨tail, htail, hcovf, hcovt, hals, hhas, _⟩ := ih3 ts [] es _ o W h1 HL hal.1 hW
+        obtain ⟨tail, htail, hcovf, hcovt, hals, hhas, _, hcls, hanyac, hclst⟩ := ih3 ts [] es _ o W h1 HL hal.1 hW
         simp only [List.nil_append] at htail
         subst htail
         have hsem := S.sem
         cases early with
         | true =>
           simp only [if_true] at h2; cases h2
-          refine ⟨fun n hn hd => ?_, fun _ => by simp [ST.atLeastSome, ST.viable, MT.rank], fun _ => Or.inr (Or.inl rfl)⟩
+          have hacn : AC N (ST.mult .andor .all orInitChoice orInitChoice1 orInitCount cs') := by
+            refine ⟨fun _ => ?_, fun h' => by simp [ST.viable] at h'⟩
+            obtain ⟨hcl, x, hx, hax, hxk⟩ := hclst rfl
+            simp only [PA]
+            refine ⟨by simp [MT.rank], ?_, PAany_of cs' ⟨x, hx, hax.1 hxk⟩⟩
+            have : ∀ (l : List ST), (∀ y ∈ l, (AC N y ∧ y.viable ≠ .unknown) ∨ DC N y) → PAsome N l := by
+              intro l
+              induction l with
+              | nil => intro _; trivial
+              | cons a l ihl =>
+                intro hl
+                refine ⟨?_, ihl (fun y hy => hl y (List.mem_cons_of_mem _ hy))⟩
+                rcases hl a (by simp) with e | e
+                · exact Or.inl (e.1.1 e.2)
+                · exact Or.inr e
+            exact this cs' hcl
+          refine ⟨fun n hn hd => ?_, fun _ => by simp [ST.atLeastSome, ST.viable, MT.rank], hacn, fun _ => Or.inr (Or.inl rfl)⟩
           simp only [holds]
           have : dl (ST.mult .andor .all orInitChoice orInitChoice1 orInitCount cs') = lvSL cs' := by simp [dl]
           rw [this] at hd
@@ -150,20 +219,20 @@ theorem nonors_pos (N : List Name) (hN : N.Pairwise (· < ·)) : ∀ f : Nat,
           have hne : cs' ≠ [] := by intro e; subst e; exact hsem.1 rfl
           have hst : ∀ x ∈ cs', Stored x.viable := fun x hx => by
             have := SemV_stored (SemV_child hsem.2.1 hx); rwa [viable_skel'] at this
-          exact node_pos hne hst (hcovf rfl) (hals hal.2) hhas
+          exact node_pos hne hst (hcovf rfl) (hals hal.2) hhas (ac_andor hcls (hanyac hal.2))
     -- ---------------------------------------------------------- AndList loop
     · intro restT done es r o W h H hal hW
       cases restT with
       | nil =>
         simp only [freshL, andNonORs] at h; cases h
         exact ⟨[], (by simp), (fun n _ hd => by simp [dlL] at hd), (fun c hc => by cases hc),
-          (fun ham => Or.inl (hW ham)), rfl⟩
+          (fun ham => Or.inl (hW ham)), rfl, (fun x hx => by cases hx)⟩
       | cons c rest =>
         simp only [AliveAll] at hal
         simp only [freshL, andNonORs] at h
         split at h
         · rename_i hor
-          obtain ⟨tail2, ht2, hcov2, hals2, hhas2, hfl2⟩ := ih2 rest (done ++ [fresh c]) es r o W h H.tail_same hal.2 hW
+          obtain ⟨tail2, ht2, hcov2, hals2, hhas2, hfl2, hac2⟩ := ih2 rest (done ++ [fresh c]) es r o W h H.tail_same hal.2 hW
           have hisor : ∃ ts, c = .or ts := by
             cases c with
             | or ts => exact ⟨ts, rfl⟩
@@ -171,14 +240,20 @@ theorem nonors_pos (N : List Name) (hN : N.Pairwise (· < ·)) : ∀ f : Nat,
             | and ts => simp [fresh, ST.isOr] at hor
             | andor ts => simp [fresh, ST.isOr] at hor
           obtain ⟨ts, rfl⟩ := hisor
+          have halor := hal.1
+          simp only [AliveT] at halor
           refine ⟨fresh (.or ts) :: tail2, by rw [ht2]; simp, CovL_cons (fun n _ hd => by rw [dl_fresh_or] at hd; cases hd) hcov2,
-            fun x hx hk => ?_, fun ham => ?_, hfl2⟩
+            fun x hx hk => ?_, fun ham => ?_, hfl2, fun x hx => ?_⟩
           · rcases List.mem_cons.mp hx with e | e
             · rw [e, fresh_viable] at hk; exact absurd rfl hk
             · exact hals2 x e hk
           · rcases hhas2 ham with w | w
             · exact Or.inl w
             · exact Or.inr (Or.inr w)
+          · rcases List.mem_cons.mp hx with e | e
+            · rw [e]
+              exact ⟨fun hk => by rw [fresh_viable] at hk; exact absurd rfl hk, fun _ => ⟨ts, rfl, halor⟩⟩
+            · exact hac2 x e
         · rename_i hor
           obtain ⟨⟨ch', es1, rc⟩, h1, h2⟩ := bind_ok' h
           have Hc := H.head
@@ -193,9 +268,10 @@ theorem nonors_pos (N : List Name) (hN : N.Pairwise (· < ·)) : ∀ f : Nat,
             have := SemV_unsat S.sem (by rw [viable_skel', hvia]; exact e)
             rw [S.trr, alive_sat N c hal.1] at this; cases this
           simp only [hnun, if_false] at h2
-          obtain ⟨tail2, ht2, hcov2, hals2, hhas2, hfl2⟩ :=
+          obtain ⟨tail2, ht2, hcov2, hals2, hhas2, hfl2, hac2⟩ :=
             ih2 rest (done ++ [ch']) es1 r _ (W ∨ HasAll ch') h2 (H.tail_after hlv M.fr S.nm) hal.2 P.has
-          refine ⟨ch' :: tail2, by rw [ht2]; simp, CovL_cons P.cov hcov2, fun x hx hk => ?_, fun ham => ?_, hfl2⟩
+          refine ⟨ch' :: tail2, by rw [ht2]; simp, CovL_cons P.cov hcov2, fun x hx hk => ?_, fun ham => ?_, hfl2,
+            fun x hx => (List.mem_cons.mp hx).elim (fun e => e ▸ P.ac) (fun e => hac2 x e)⟩
           · rcases List.mem_cons.mp hx with e | e
             · rw [e] at hk ⊢; exact P.als hk
             · exact hals2 x e hk
@@ -209,7 +285,8 @@ theorem nonors_pos (N : List Name) (hN : N.Pairwise (· < ·)) : ∀ f : Nat,
       | nil =>
         simp only [freshL, andorNonORs] at h; cases h
         exact ⟨[], (by simp), (fun _ n _ hd => by simp [dlL] at hd), (fun h' => by cases h'),
-          (fun h' => by simp [AliveAny] at h'), (fun ham => Or.inl (hW ham)), (fun h' => by cases h')⟩
+          (fun h' => by simp [AliveAny] at h'), (fun ham => Or.inl (hW ham)), (fun h' => by cases h'),
+          (fun x hx => by cases hx), (fun h' => by simp [AliveAny] at h'), (fun h' => by cases h')⟩
       | cons c rest =>
         simp only [AliveSome] at hal
         simp only [freshL, andorNonORs] at h
@@ -219,16 +296,20 @@ theorem nonors_pos (N : List Name) (hN : N.Pairwise (· < ·)) : ∀ f : Nat,
         obtain ⟨_, _, hdj⟩ := nodup_append_disj hnd
         have cont : ∀ (x : ST) (es1 : Ents) (o' : Name → Nat) (W' : Prop), HTL N rest o' es1 → (allMarked es1 = true → W') →
             (W' → W ∨ HasAll x) → Cov N x → (AliveT N c → x.viable ≠ .unknown → x.atLeastSome = true) →
+            ((AliveT N c ∧ AC N x) ∨ (DeadT N c ∧ DC N x)) →
             andorNonORs f (done ++ [x]) (freshL rest) es1 = .ok r →
             ∃ tail, r.1 = done ++ tail ∧ (r.2.2 = false → CovL N tail) ∧
               (r.2.2 = true → ∀ n ∈ N, n ∈ lvSL tail → n ∈ holdsL tail) ∧
               (AliveAny N (c :: rest) → (∀ c ∈ tail, c.viable ≠ .unknown) → ∃ c ∈ tail, c.atLeastSome = true) ∧
               (allMarked r.2.1 = true → W ∨ HasAllAny tail) ∧
-              (r.2.2 = true → ∀ d ∈ done, d.viable ≠ .unknown) := by
-          intro x es1 o' W' H' hW' hWW hcx halx hrec
-          obtain ⟨tail2, ht2, hcf2, hct2, hals2, hhas2, hdk2⟩ := ih3 rest (done ++ [x]) es1 r o' W' hrec H' hal.2 hW'
+              (r.2.2 = true → ∀ d ∈ done, d.viable ≠ .unknown) ∧
+              (∀ x ∈ tail, AC N x ∨ DC N x) ∧ (AliveAny N (c :: rest) → ∃ x ∈ tail, AC N x) ∧
+              (r.2.2 = true → (∀ x ∈ tail, (AC N x ∧ x.viable ≠ .unknown) ∨ DC N x) ∧
+                ∃ x ∈ tail, AC N x ∧ x.viable ≠ .unknown) := by
+          intro x es1 o' W' H' hW' hWW hcx halx hclx hrec
+          obtain ⟨tail2, ht2, hcf2, hct2, hals2, hhas2, hdk2, hcl2, hany2, hclt2⟩ := ih3 rest (done ++ [x]) es1 r o' W' hrec H' hal.2 hW'
           refine ⟨x :: tail2, by rw [ht2]; simp, fun hf => CovL_cons hcx (hcf2 hf), fun hf n hn hl => ?_, fun hany hk => ?_,
-            fun ham => ?_, fun hf d hd => hdk2 hf d (List.mem_append.mpr (Or.inl hd))⟩
+            fun ham => ?_, fun hf d hd => hdk2 hf d (List.mem_append.mpr (Or.inl hd)), fun y hy => ?_, fun hany => ?_, fun hf => ?_⟩
           · simp only [lvSL, List.mem_append] at hl
             simp only [holdsL, List.mem_append]
             rcases hl with e | e
@@ -245,6 +326,28 @@ theorem nonors_pos (N : List Name) (hN : N.Pairwise (· < ·)) : ∀ f : Nat,
               · exact Or.inl w'
               · exact Or.inr (Or.inl w')
             · exact Or.inr (Or.inr w)
+          · rcases List.mem_cons.mp hy with e | e
+            · rw [e]; rcases hclx with e' | e'
+              · exact Or.inl e'.2
+              · exact Or.inr e'.2
+            · exact hcl2 y e
+          · simp only [AliveAny] at hany
+            rcases hany with e | e
+            · rcases hclx with e' | e'
+              · exact ⟨x, by simp, e'.2⟩
+              · exfalso
+                have := alive_sat N c e
+                rw [dead_unsat N c H.head.wf e'.1] at this; cases this
+            · obtain ⟨y, hy, hya⟩ := hany2 e
+              exact ⟨y, List.mem_cons_of_mem _ hy, hya⟩
+          · obtain ⟨a1, y, hy, hya⟩ := hclt2 hf
+            have hxk : x.viable ≠ .unknown := hdk2 hf x (List.mem_append.mpr (Or.inr (by simp)))
+            refine ⟨fun z hz => ?_, y, List.mem_cons_of_mem _ hy, hya⟩
+            rcases List.mem_cons.mp hz with e | e
+            · rw [e]; rcases hclx with e' | e'
+              · exact Or.inl ⟨e'.2, hxk⟩
+              · exact Or.inr e'.2
+            · exact a1 z e
         split at h
         · rename_i hor
           have hisor : ∃ ts, c = .or ts := by
@@ -254,9 +357,16 @@ theorem nonors_pos (N : List Name) (hN : N.Pairwise (· < ·)) : ∀ f : Nat,
             | and ts => simp [fresh, ST.isOr] at hor
             | andor ts => simp [fresh, ST.isOr] at hor
           obtain ⟨ts, rfl⟩ := hisor
-          exact cont (fresh (.or ts)) es o W H.tail_same hW (fun w => Or.inl w)
+          refine cont (fresh (.or ts)) es o W H.tail_same hW (fun w => Or.inl w)
             (fun n _ hd => by rw [dl_fresh_or] at hd; cases hd)
-            (fun _ hk => by rw [fresh_viable] at hk; exact absurd rfl hk) h
+            (fun _ hk => by rw [fresh_viable] at hk; exact absurd rfl hk) ?_ h
+          rcases hal.1 with e | e
+          · left
+            refine ⟨e, fun hk => by rw [fresh_viable] at hk; exact absurd rfl hk, fun _ => ⟨ts, rfl, ?_⟩⟩
+            simpa [AliveT] using e
+          · right
+            refine ⟨e, by rw [DeadS, lvS_fresh]; exact e, ?_⟩
+            simp [ST.atLeastSome, fresh_viable, MT.rank]
         · rename_i hor
           obtain ⟨⟨ch', es1, rc⟩, h1, h2⟩ := bind_ok' h
           have Hc := H.head
@@ -280,7 +390,23 @@ theorem nonors_pos (N : List Name) (hN : N.Pairwise (· < ·)) : ∀ f : Nat,
                 cases h2
                 have hvall : ch'.viable = .all := by rw [hvia, hall]
                 have ham1 : allMarked es1 = true := M.all hall
-                refine ⟨ch' :: freshL rest, rfl, (fun hf => by cases hf), fun _ n hn hl => ?_, fun _ _ => ?_, fun _ => ?_, fun _ d hd => ?_⟩
+                have hrestdead : ∀ y ∈ freshL rest, DC N y := by
+                  intro y hy
+                  obtain ⟨T, hT, rfl⟩ := mem_freshL hy
+                  refine ⟨fun n hnl hnN => ?_, by simp [ST.atLeastSome, fresh_viable, MT.rank]⟩
+                  rw [lvS_fresh] at hnl
+                  have hnr : n ∈ leavesL rest := leaves_sub_leavesL hT n hnl
+                  have hnd1 : (names es1).Nodup := by rw [S.nm]; exact nodup_of_sorted hN
+                  have hm := (allMarked_markAt hnd1).mp ham1 n (by rw [S.nm]; exact hnN)
+                  have h0 : o n = 0 := H.out n (by simp [leavesL, hnr])
+                  have := M.fr.1 n
+                  simp only [hm, if_false, h0, Nat.zero_add] at this
+                  have hh : n ∈ holds ch' := List.count_pos_iff.mp (by unfold cnt at this; omega)
+                  have := holds_sub ch' n hh
+                  rw [hlv] at this
+                  exact hdj n this hnr
+                refine ⟨ch' :: freshL rest, rfl, (fun hf => by cases hf), fun _ n hn hl => ?_, fun _ _ => ?_, fun _ => ?_, fun _ d hd => ?_,
+                  fun y hy => ?_, fun _ => ⟨ch', by simp, P.ac⟩, fun _ => ⟨fun y hy => ?_, ch', by simp, P.ac, by rw [hvall]; simp⟩⟩
                 · simp only [lvSL, List.mem_append] at hl
                   simp only [holdsL, List.mem_append]
                   rcases hl with e | e
@@ -300,8 +426,16 @@ theorem nonors_pos (N : List Name) (hN : N.Pairwise (· < ·)) : ∀ f : Nat,
                 · exact Or.inr (Or.inl (HasAll_of_all hvall))
                 · have := List.all_eq_true.mp hdone d hd
                   simpa using this
-              · exact cont ch' es1 _ (W ∨ HasAll ch') (H.tail_after hlv M.fr S.nm) P.has id P.cov (fun _ => P.als) h2
-            · exact cont ch' es1 _ (W ∨ HasAll ch') (H.tail_after hlv M.fr S.nm) P.has id P.cov (fun _ => P.als) h2
+                · rcases List.mem_cons.mp hy with e | e
+                  · rw [e]; exact Or.inl P.ac
+                  · exact Or.inr (hrestdead y e)
+                · rcases List.mem_cons.mp hy with e | e
+                  · rw [e]; exact Or.inl ⟨P.ac, by rw [hvall]; simp⟩
+                  · exact Or.inr (hrestdead y e)
+              · exact cont ch' es1 _ (W ∨ HasAll ch') (H.tail_after hlv M.fr S.nm) P.has id P.cov (fun _ => P.als)
+                  (Or.inl ⟨halive, P.ac⟩) h2
+            · exact cont ch' es1 _ (W ∨ HasAll ch') (H.tail_after hlv M.fr S.nm) P.has id P.cov (fun _ => P.als)
+                (Or.inl ⟨halive, P.ac⟩) h2
           · -- a dead child: it ends up holding nothing, the marks are what they were
             have hdeadS : ∀ x ∈ lvS ch', x ∉ N := by rw [hlv]; exact hdead
             have hh0 : holds ch' = [] := dead_H0 M.fr S.nm hdeadS
@@ -319,6 +453,10 @@ theorem nonors_pos (N : List Name) (hN : N.Pairwise (· < ·)) : ∀ f : Nat,
               have := alive_sat N c ha
               rw [dead_unsat N c Hc.wf hdead] at this; cases this
             have HT1 : HTL N rest o es1 := ⟨H.tail_same.wf, H.tail_same.nd, H.tail_same.out, hf1, S.nm⟩
+            have hstv : Stored ch'.viable := by have := SemV_stored S.sem; rwa [viable_skel'] at this
+            have hnals : ch'.atLeastSome = false := by
+              have := not_als_of_notK hstv hnotK
+              simp [ST.atLeastSome, this]
             split at h2
             · rename_i hall
               exact absurd (by rw [hvia, hall]; exact Or.inr (Or.inr rfl)) hnotK
@@ -333,8 +471,11 @@ theorem nonors_pos (N : List Name) (hN : N.Pairwise (· < ·)) : ∀ f : Nat,
                 have hlv2 : lvS ch2 = leaves c := by rw [lvS_eq, hs2, ← lvS_eq]; exact hlv
                 exact cont ch2 es2 o W ⟨H.tail_same.wf, H.tail_same.nd, H.tail_same.out, U.fr, hn2⟩
                   (fun h' => hW (by rw [← ham, ← ham2]; exact h')) (fun w => Or.inl w)
-                  (cov_of_dead (by rw [hlv2]; exact hdead)) (fun ha => absurd ha hnotalive) h4
+                  (cov_of_dead (by rw [hlv2]; exact hdead)) (fun ha => absurd ha hnotalive)
+                  (Or.inr ⟨hdead, by rw [DeadS, hlv2]; exact hdead, by
+                    have : ch2.viable = ch'.viable := viable_of_skel hs2
+                    simp only [ST.atLeastSome, this]; simpa [ST.atLeastSome] using hnals⟩) h4
               · exact cont ch' es1 o W HT1 (fun h' => hW (by rw [← ham]; exact h')) (fun w => Or.inl w)
-                  (cov_of_dead hdeadS) (fun ha => absurd ha hnotalive) h2
+                  (cov_of_dead hdeadS) (fun ha => absurd ha hnotalive) (Or.inr ⟨hdead, hdeadS, hnals⟩) h2
 
 end StepModel.Complex.Match
